@@ -3,6 +3,7 @@ package props
 // C05 — a signed request is honoured at most once; nonces only move forward.
 
 import (
+	"errors"
 	"fmt"
 	"math/big"
 	"strings"
@@ -218,6 +219,9 @@ func TestC05Replay(t *testing.T) {
 				driver = "badger"
 			}
 			cfg := sessCfg{Driver: driver, Price: big.NewInt(1000), Interval: time.Minute, Deposits: true}
+			// sometimes the nonce store fails while the first copy is being checked (fault injection through the store wrapper)
+			storeFault := rapid.IntRange(0, 5).Draw(rt, "storeFault") == 0
+			cfg.Yield = storeFault
 			s := newSession(rt, cfg, 4)
 			defer func() { s.close() }()
 			host, client := 0, 1
@@ -247,6 +251,9 @@ func TestC05Replay(t *testing.T) {
 			if mode == "reopen" && driver != "badgerdisk" {
 				mode = "later"
 			}
+			if storeFault {
+				mode = "storefault"
+			}
 			who := s.agents[client].id
 			var submit func() error
 			var submitRespelled func(how string) error
@@ -256,6 +263,10 @@ func TestC05Replay(t *testing.T) {
 				n := s.nonce(who.nodeID)
 				sig := mustSign(who.key, "vipnode_update", who.nodeID, n, req)
 				submit = func() error { _, err := s.pool.Update(rpcCtx(), sig, who.nodeID, n, req); return err }
+				submitRespelled = func(how string) error {
+					_, err := s.pool.Update(rpcCtx(), sig, respell(who.nodeID, how), n, req)
+					return err
+				}
 			case "updateLegacy":
 				// an old agent signs only {peers, block_number}
 				req := pool.UpdateRequest{Peers: []string{hostID}, BlockNumber: 7}
@@ -289,6 +300,10 @@ func TestC05Replay(t *testing.T) {
 				n := s.nonce(who.nodeID)
 				sig := mustSign(who.key, "vipnode_connect", who.nodeID, n, req)
 				submit = func() error { _, err := s.pool.Connect(rpcCtx(), sig, who.nodeID, n, req); return err }
+				submitRespelled = func(how string) error {
+					_, err := s.pool.Connect(rpcCtx(), sig, respell(who.nodeID, how), n, req)
+					return err
+				}
 			case "withdraw":
 				n := s.nonce(w.addr)
 				sig := mustSign(w.key, "pool_withdraw", w.addr, n)
@@ -302,6 +317,42 @@ func TestC05Replay(t *testing.T) {
 				submitRespelled = func(how string) error { return s.pay.AddNode(rpcCtx(), sig, respell(w.addr, how), n, target) }
 			}
 			delayClass := "0"
+			if mode == "storefault" {
+				// the store cannot record the nonce while the first copy is checked; afterwards it works again and the
+				// same captured request arrives twice more: whatever the pool does with a copy it cannot check, the
+				// request must not be carried out more than once in total
+				s.ys.setHook(func(method string) error {
+					if method == "CheckAndSaveNonce" {
+						return errors.New("injected nonce store fault")
+					}
+					return nil
+				})
+				e1 := submit()
+				s.ys.setHook(nil)
+				e2 := submit()
+				before := s.digest()
+				e3 := submit()
+				after := s.digest()
+				honoured := 0
+				for _, e := range []error{e1, e2, e3} {
+					if e == nil {
+						honoured++
+					}
+				}
+				if honoured > 1 {
+					rt.Fatalf("one signed %s submitted three times (the nonce store failing during the first) was honoured %d times: during the fault err=%v, afterwards err=%v, again err=%v", endpoint, honoured, e1, e2, e3)
+				}
+				if classifyErr(e3).Kind != "verify" {
+					rt.Fatalf("third copy of %s after a store fault during the first was not refused as a replay: %v (first: %v, second: %v)", endpoint, e3, e1, e2)
+				}
+				if before != after {
+					rt.Fatalf("replayed %s after a store fault changed the pool state:\n%s", endpoint, diffDigest(before, after))
+				}
+				rec.Case(fmt.Sprintf("replay|%s|%s|storefault|%v", driver, endpoint, e1 == nil), true, []string{"replay:" + endpoint, "replay:mode:storefault", "replay:driver:" + driver}, func() interface{} {
+					return map[string]interface{}{"level": "pool", "driver": driver, "endpoint": endpoint, "mode": "storefault", "during_fault": fmt.Sprint(e1), "after_fault": fmt.Sprint(e2), "again": fmt.Sprint(e3)}
+				})
+				return
+			}
 			if mode == "race" {
 				var wg sync.WaitGroup
 				errs := make([]error, 2)
@@ -356,7 +407,10 @@ func TestC05Replay(t *testing.T) {
 			after := s.digest()
 			// the same captured request with the identity spelled in another hex case is a replay too
 			if submitRespelled != nil && before == after && classifyErr(err).Kind == "verify" {
-				for _, how := range []string{"lower", "upper", "mixed"} {
+				for _, how := range []string{"lower", "upper", "mixed", "prefix"} {
+					if (how == "lower" || how == "upper" || how == "mixed") && respell(who.nodeID, how) == who.nodeID && respell(w.addr, how) == w.addr {
+						continue
+					}
 					if e2 := submitRespelled(how); classifyErr(e2).Kind != "verify" {
 						rt.Fatalf("captured %s re-submitted with the identity in %s-case hex was honoured again: err=%v", endpoint, how, e2)
 					}
